@@ -9,7 +9,9 @@ import (
 	"encoding/base64"
 	"encoding/json"
 	"fmt"
+	"os"
 	"reflect"
+	"runtime"
 	"runtime/debug"
 	"strings"
 	"testing"
@@ -33,6 +35,8 @@ type decCase struct {
 }
 
 const watchdog = 30 * time.Second
+
+const memCeiling = 1 << 30
 
 // guarded runs f on a private copy of the input, with a watchdog, and checks that the copy was not written to.
 // It returns (reached, violation): reached says whether a payload decoder was reached (f's own verdict).
@@ -460,8 +464,8 @@ func genBin(t *rapid.T) decCase {
 	d := &gen.Decoders[rapid.IntRange(0, len(gen.Decoders)-1).Draw(t, "decoder")]
 	c := decCase{Entry: "bin:" + d.Name, Uplink: rapid.Bool().Draw(t, "uplink")}
 	n := rapid.IntRange(0, 40).Draw(t, "n")
-	if len(d.Lens) > 0 && rapid.IntRange(0, 3).Draw(t, "fit") != 0 {
-		n = rapid.SampledFrom(d.Lens).Draw(t, "len")
+	if len(d.AcceptedLens()) > 0 && rapid.IntRange(0, 3).Draw(t, "fit") != 0 {
+		n = rapid.SampledFrom(d.AcceptedLens()).Draw(t, "len")
 		if rapid.IntRange(0, 5).Draw(t, "off") == 0 {
 			n += rapid.IntRange(-1, 1).Draw(t, "d")
 			if n < 0 {
@@ -659,6 +663,19 @@ func hostileCorpus() []decCase {
 func TestProp(t *testing.T) {
 	// unbounded recursion in a decoder is to end the process after 64 MB of stack, not after the default 1 GB per shard
 	debug.SetMaxStack(64 << 20)
+	// a decoder that appends for ever exhausts the machine long before the 30 s watchdog fires, and the operating system
+	// then kills the process without a trace: the heap is watched instead, and the driver turns the line below into a
+	// violation with the input in flight (crumb.bin). A shard of this check stays below 100 MiB on code that holds the property.
+	go func() {
+		for range time.Tick(50 * time.Millisecond) {
+			var ms runtime.MemStats
+			runtime.ReadMemStats(&ms)
+			if ms.HeapAlloc > memCeiling {
+				fmt.Fprintf(os.Stderr, "\nfatal error: verif memory watchdog: the heap grew to %d MiB while a decoder was handling an input of at most a few KiB (unbounded loop)\n", ms.HeapAlloc>>20)
+				os.Exit(3)
+			}
+		}
+	}()
 	r := evid.Begin(t, "C09")
 	defer r.Finish()
 
@@ -755,6 +772,7 @@ func checkGrow(c growCase) evid.Outcome {
 	}
 	run := func(k int) (uint64, bool) {
 		in := bytes.Repeat(c.Unit, k)
+		evid.Crumb(fmt.Sprintf("%s uplink=%v", c.Entry, c.Uplink), in)
 		ok := true
 		n := allocBytes(func() {
 			if c.Entry == "phy-port0" {
